@@ -413,9 +413,11 @@ class ExprMixin:
         if isinstance(container, VOpt):
             self.safety(z3.Not(container.isnone), "none container", lineno)
             container = container.val
-        from .ty import VSet
+        from .ty import VSet, VMap
         if isinstance(container, VSet):
             container = container.lst  # membership in set(xs) is membership in xs
+        if isinstance(container, VMap):
+            return z3.Select(container.present, container.ty.key.pack(item))
         if isinstance(container, VOpaque):
             # an opaque container type may declare its membership test: @external("<Type>.__contains__")
             from .ex_call import EXTERNALS
@@ -670,6 +672,14 @@ class ExprMixin:
         if isinstance(obj, VOpt):
             self.safety(z3.Not(obj.isnone), "none subscript", lineno)
             obj = obj.val
+        from .ty import VMap
+        if isinstance(obj, VMap):
+            k = obj.ty.key.pack(key)
+            self.maybe_raise(z3.Select(obj.present, k), "KeyError", lineno)
+            v = obj.ty.val.wrap(z3.Select(obj.vals, k))
+            if isinstance(v, VList):
+                v.map_origin = (obj, k)  # d[k].append(x) mutates the list stored in the dict: written back by call_method
+            return v
         if isinstance(obj, VOpaque):
             # an opaque container type may declare its subscript: @external("<Type>.__getitem__")
             from .ex_call import EXTERNALS
@@ -754,6 +764,20 @@ class ExprMixin:
         return VDict(ValSort.dv(v.t))
 
     def setitem(self, obj, key, v, lineno=0):
+        g = getattr(obj, "module_global", None)
+        if g is not None and self.spec_depth == 0 and self.merge_depth == 0:
+            top = getattr(self, "top_contract", None)
+            if top is None or g not in (top.opts.get("modifies_globals") or ()):
+                # item assignment into a module-level mutable object: process-wide state written by a function whose
+                # contract does not declare it (modifies_globals=[...])
+                self.oblige("frame", z3.BoolVal(False), lineno, label="frame.module_global",
+                            note=f"writes into the module-level object {g}")
+        from .ty import VMap
+        if isinstance(obj, VMap):
+            k = obj.ty.key.pack(key)
+            obj.vals = z3.Store(obj.vals, k, obj.ty.val.pack(v))
+            obj.present = z3.Store(obj.present, k, z3.BoolVal(True))
+            return
         ck = concrete_of(key)
         if isinstance(obj, VRec) and ck is not NOCONST and (obj.ty.as_dict or ck in obj.fields):
             obj.fields[ck] = v
